@@ -3,7 +3,7 @@
 # and with different worker counts.
 cd /verif; ./check build || exit 2
 runs=${1:-20000}; fail=0
-for prof in C01 C02 C03 C05 C07 C08 C08F C10 C11 C14 C15 C16 C17 C18; do
+for prof in C01 C02 C03 C04 C05 C06 C07 C08 C08F C09 C09P C10 C10T C11 C12 C13 C14 C15 C16 C17 C18; do
   a=$(target/release/cobsim hashes --profile $prof --runs $runs --threads 1 --seed 7 | md5sum)
   b=$(target/release/cobsim hashes --profile $prof --runs $runs --threads 4 --seed 7 | md5sum)
   c=$(target/release/cobsim hashes --profile $prof --runs $runs --threads 16 --seed 7 | md5sum)
